@@ -1,5 +1,71 @@
-import CoapVerif.Model.Uri
-import CoapVerif.Spec.Uri
+import CoapVerif.Lemmas.Uri
+/-
+C16 — URI text and CoAP options convert both ways without loss, confusion or overread.
+
+  S = Coap.Spec.Uri   (RFC 3986 §2.1/§3/§5.2.4, RFC 7252 §6.4/§6.5; CoapVerif/Spec/Uri.lean, SPEC DECISIONS there)
+  M = Coap.MU         (transcription of src/coap_uri.c after the fix: commits; CoapVerif/Model/Uri.lean)
+  M's character tables = Coap.Generated.Uri.*, regenerated from /repo on every run (T1).
+
+Property theorems only; helper lemmas live in CoapVerif/Lemmas/Uri.lean.
+-/
 namespace Coap.C16
-theorem stub : True := trivial
+open Coap Coap.MU Coap.Spec.Uri Coap.UriL
+
+/-- segment values as a parsed request can carry them (the parser admits ≤ 255 bytes; the functions hold the
+length in a `uint16_t`) -/
+def Small (segs : List Bytes) : Prop := ∀ s ∈ segs, s.length < 65536
+
+/-- (T1) the characters libcoap leaves unescaped are exactly those RFC 7252 §6.5 steps 6 / 7 name —
+in particular '%' and '/' are escaped in a path segment and '&' in a query argument. -/
+theorem escape_tables_match_rfc :
+    Generated.Uri.unescPathTab = pathPlainTab ∧ Generated.Uri.unescQueryTab = queryPlainTab :=
+  ⟨unescPathTab_eq, unescQueryTab_eq⟩
+
+/-- (P1, options → string) coap_get_uri_path computes RFC 7252 §6.5's path (without the leading '/'); the length
+pass and the write pass agree, so nothing is left uninitialised and nothing is written past the string. -/
+theorem get_uri_path_eq_spec (segs : List Bytes) (h : Small segs) : getUriPath segs = R.ok (composePath segs) := by
+  unfold getUriPath filled
+  simp only [map_optVal segs h]
+  rw [writePass_length, if_pos rfl, writePass_zero, composePath]
+  congr 2
+  exact List.map_congr_left (fun s _ => escSeg_eq _ _ unescPath_fun s)
+
+/-- the same for coap_get_query; NULL stands for the empty string -/
+theorem get_query_eq_spec (segs : List Bytes) (h : Small segs) :
+    getQuery segs = R.ok (if composeQuery segs = [] then none else some (composeQuery segs)) := by
+  have hw : writePass unescQuery 0x26 0 segs = composeQuery segs := by
+    rw [writePass_zero, composeQuery]
+    congr 1
+    exact List.map_congr_left (fun s _ => escSeg_eq _ _ unescQuery_fun s)
+  have hl := writePass_length unescQuery 0x26 segs
+  unfold getQuery filled
+  simp only [map_optVal segs h]
+  rw [← hl, hw]
+  by_cases he : composeQuery segs = []
+  · simp [he]
+  · have : (composeQuery segs).length > 0 := List.length_pos_iff.mpr he
+    simp [he, this]
+
+/-- (P2) the path string — the key of the resource lookup — determines the segment list, a single empty
+segment counting as no segment: different lists never give the same string. -/
+theorem uri_path_injective (a b : List Bytes) (ha : Small a) (hb : Small b)
+    (h : getUriPath a = getUriPath b) : norm a = norm b := by
+  rw [get_uri_path_eq_spec a ha, get_uri_path_eq_spec b hb] at h
+  exact compose_injective pathSafe a b (R.ok.inj h)
+
+/-- (P2) the same for the query string handed to the application -/
+theorem query_injective (a b : List Bytes) (ha : Small a) (hb : Small b)
+    (h : getQuery a = getQuery b) : norm a = norm b := by
+  rw [get_query_eq_spec a ha, get_query_eq_spec b hb] at h
+  have h := R.ok.inj h
+  apply compose_injective querySafe a b
+  change composeQuery a = composeQuery b
+  by_cases h1 : composeQuery a = [] <;> by_cases h2 : composeQuery b = [] <;> simp [h1, h2] at h ⊢
+  exact h
+
+example : getQuery [[0x61, 0x26, 0x62]] = R.ok (some [0x61, 0x25, 0x32, 0x36, 0x62]) := by decide
+example : getQuery [[0x61], [0x62]] = R.ok (some [0x61, 0x26, 0x62]) := by decide
+example : getQuery [[], [0x61]] = R.ok (some [0x26, 0x61]) := by decide
+example : getUriPath [[], []] = R.ok [0x2f] ∧ getUriPath [[]] = R.ok [] ∧ getUriPath [] = R.ok [] := by decide
+
 end Coap.C16
